@@ -339,3 +339,36 @@ theorem new_visits_children :
     (restrict (.ext 0) (walkabout [.before] exTree).1).contains (.visit, 2) = true := by decide
 
 end Visitor
+
+/-! ## handler dispatch (`_BaseVisitor.visit` / `depart`) -/
+namespace Visitor
+
+/-- **dispatch_same_family**: a node is left through the same handler family it was entered through
+(the method written for its class name, the lower-case spelling, or the generic handler), for
+every visitor that defines its handlers in pairs -/
+theorem dispatch_same_family (defined : List String) (cls : String) (h : Paired defined cls) :
+    (dispatch defined "visit_" cls).family = (dispatch defined "depart_" cls).family := by
+  obtain ⟨h1, h2⟩ := h
+  unfold dispatch
+  by_cases a : ("visit_" ++ cls) ∈ defined
+  · have b := h1.mp a
+    simp [a, b, Handler.family]
+  · have b : ("depart_" ++ cls) ∉ defined := fun hb => a (h1.mpr hb)
+    by_cases c : lowerAscii ("visit_" ++ cls) ∈ defined
+    · have d := h2.mp c
+      simp [a, b, c, d, Handler.family]
+    · have d : lowerAscii ("depart_" ++ cls) ∉ defined := fun hd => c (h2.mpr hd)
+      simp [a, b, c, d, Handler.family]
+
+/-- the pairing hypothesis is needed: a visitor with `visit_N` but no `depart_N` enters through the
+specific handler and leaves through the generic one -/
+theorem dispatch_unpaired_counterexample :
+    (dispatch ["visit_N"] "visit_" "N").family = .exact ∧ (dispatch ["visit_N"] "depart_" "N").family = .unknown := by
+  decide
+
+example : Paired ["visit_N", "depart_N", "visit_low", "depart_low"] "Low" := by
+  unfold Paired; decide
+example : (dispatch ["visit_N", "depart_N", "visit_low", "depart_low"] "visit_" "Low") = .lower "visit_low" := by decide
+example : (dispatch ["visit_N", "depart_N"] "visit_" "SubN") = .unknown := by decide
+
+end Visitor
